@@ -8,16 +8,20 @@ from common import (NCPU, SPEC, MachineryError, Outcome, cached, drive, run_para
                     tagged_lines, tlc, tlc_ok, tlc_violation, workdir)
 
 
-def _cfg(wd, family: str, invariants: list[str], rndn=5, rndk=8) -> str:
+def _cfg(wd, family: str, invariants: list[str], rndn=5, rndk=8, grows=False) -> str:
     f = wd / f"Sep_{family}_{'_'.join(invariants)}.cfg"
-    inv = "\n".join(f"INVARIANT {i}" for i in invariants)
-    f.write_text(f'SPECIFICATION Spec\nCONSTANTS\n  Family = "{family}"\n  RndN = {rndn}\n  RndK = {rndk}\n{inv}\nCHECK_DEADLOCK FALSE\n')
+    inv = "\n".join(f"INVARIANT {i}" for i in invariants) + ("\nPROPERTY GrowAntiMonotone" if grows else "")
+    f.write_text(f'SPECIFICATION Spec\nCONSTANTS\n  Family = "{family}"\n  RndN = {rndn}\n  RndK = {rndk}\n'
+                 f"  Grows = {'TRUE' if grows else 'FALSE'}\n{inv}\nCHECK_DEADLOCK FALSE\n")
     return str(f)
+
+
+GROW_FAMILIES = ("A3", "M3", "A4o")   # closed under edge deletion: the history action Grow is model-checked on them
 
 
 def mc(wd, family: str) -> dict:
     def go():
-        r = tlc("SepMachine.tla", _cfg(wd, family, ["EquivOnADMG", "SigmaLaws", "DevInvisibleSmallADMG"]), workers=NCPU, meta=wd / f"mc{family}")
+        r = tlc("SepMachine.tla", _cfg(wd, family, ["EquivOnADMG", "SigmaLaws", "DevInvisibleSmallADMG"], grows=family in GROW_FAMILIES), workers=NCPU, meta=wd / f"mc{family}")
         v = tlc_violation(r)
         if v:
             raise MachineryError(f"SepMachine design check ({family}): {v} violated\n" + r["out"][-3000:])
@@ -41,12 +45,43 @@ def tables(wd, family: str, *, rnd_seed: int | None = None, rndn=5, rndk=8) -> d
 
 def warm_all() -> None:
     wd = workdir("sep-warm")
-    for fam in ("A3", "A4o", "M3", "C5", "D5"):
+    for fam in ("A3", "A4o", "M3", "C5", "D5", "DAG5o"):
         mc(wd, fam)
         tables(wd, fam)
 
 
+def gkey(g) -> str:
+    return json.dumps({"n": sorted(g["n"]), "d": sorted(list(e) for e in g["d"]), "b": sorted(sorted(e) for e in g["b"])}, sort_keys=True)
+
+
+def attach_histories(recs: list) -> int:
+    """For every record whose graph minus one edge is also in the table family, attach that predecessor (graph, tables,
+    the edge): a Grow step of SepMachine.tla.  The edge alternates between bidirected and directed where both exist."""
+    by = {gkey(r["g"]): r for r in recs}
+    n = 0
+    for i, r in enumerate(recs):
+        g = r["g"]
+        d = sorted(list(e) for e in g["d"])
+        b = sorted(sorted(e) for e in g["b"])
+        cands = [("b", e) for e in b] + [("d", e) for e in d] if i % 2 == 0 else [("d", e) for e in d] + [("b", e) for e in b]
+        if not cands:
+            continue
+        same = [c for c in cands if c[0] == cands[0][0]]
+        k, e = same[(i // 2) % len(same)]
+        pg = {"n": g["n"], "d": [x for x in d if not (k == "d" and x == e)], "b": [x for x in b if not (k == "b" and x == e)]}
+        prev = by.get(gkey(pg))
+        if prev is None:
+            continue
+        r["prev"] = {kk: prev[kk] for kk in prev if kk != "prev"}
+        r["prev"]["edge"] = {"k": k, "e": e}
+        n += 1
+    return n
+
+
 def replay(wd, mode: str, recs: list, n_orders: int) -> tuple[dict, list]:
+    if mode in ("dsep", "ci"):
+        recs = [dict(r) for r in recs]
+        attach_histories(recs)
     shards = [recs[i::NCPU] for i in range(NCPU)]
     jobs = []
     for i, sh in enumerate(shards):
